@@ -179,6 +179,8 @@ def run_history(rebound, sc):
     for op in sc["ops"]:
         if violation:
             break
+        if not all(math.isfinite(v) for q in sim.particles for v in (q.x, q.y, q.z, q.vx, q.vy, q.vz, q.m, q.r)):
+            break      # a non-finite state is not this property's business: stop the history
         if op[0] == "steps":
             snap = snapshot(sim)
             v, done = step_and_judge(sim, handed, op[1])
